@@ -31,12 +31,23 @@ EntriesA == EntriesOver({"x", "y"}) \cup {[m |-> FALSE, k |-> k, v |-> Def("C")]
 CEntries == {[m |-> TRUE, k |-> "<<", v |-> Al("A")], [m |-> TRUE, k |-> "<<", v |-> Al("B")],
              [m |-> FALSE, k |-> "x", v |-> SC], [m |-> FALSE, k |-> "y", v |-> Al("A")]}
 NumC(a) == Cardinality({i \in 1..Len(a) : a[i].v = Def("C")})
-Init == \E a \in SeqsUpTo(EntriesA, MaxA) :
-          \E b \in SeqsUpTo(EntriesOver({"x", "y"}), MaxB) :
-            \E r \in SeqsUpTo(EntriesOver({"x", "y", "z"}), MaxR) :
+\* S: an anchored SEQUENCE, defined at a merge inside A (`<<: &S [...]`), used again by alias in B and R (as a merge
+\* value or as a plain value), and possibly containing an alias to itself
+SD == [t |-> "sd"]
+SA == [t |-> "sa"]
+SPool == { <<Al("A")>>, <<Al("B"), SA>>, <<SA, Al("B")>>, <<Q(<<SA>>), Al("B")>> }
+EntriesAS == EntriesA \cup {[m |-> TRUE, k |-> "<<", v |-> SD]}
+EntriesBR(K) == EntriesOver(K) \cup {[m |-> TRUE, k |-> "<<", v |-> SA]} \cup {[m |-> FALSE, k |-> k, v |-> SA] : k \in K}
+Num(es, val) == Cardinality({i \in 1..Len(es) : es[i].v = val})
+Init == \E a \in SeqsUpTo(EntriesAS, MaxA) :
+          \E b \in SeqsUpTo(EntriesBR({"x", "y"}), MaxB) :
+            \E r \in SeqsUpTo(EntriesBR({"x", "y", "z"}), MaxR) :
               \E c \in SeqsUpTo(CEntries, MaxC) :
+              \E sq \in SPool \cup {<<>>} :
               NumC(a) <= 1 /\ (NumC(a) = 0 => c = <<>>)
-              /\ NoDup(a) /\ NoDup(b) /\ NoDup(r) /\ NoDup(c) /\ g = [A |-> Stamp("A", a), B |-> Stamp("B", b), C |-> Stamp("C", c),
+              /\ Num(a, SD) <= 1 /\ (Num(a, SD) = 0 <=> sq = <<>>)                  \* S exists exactly when it is defined
+              /\ (Num(a, SD) = 0 => Num(b, SA) + Num(r, SA) = 0)                   \* no alias without its anchor
+              /\ NoDup(a) /\ NoDup(b) /\ NoDup(r) /\ NoDup(c) /\ g = [A |-> Stamp("A", a), B |-> Stamp("B", b), C |-> Stamp("C", c), S |-> sq,
                    R |-> <<[m |-> FALSE, k |-> "defs", v |-> Q(<<Def("A"), Def("B")>>)]>> \o Stamp("R", r)]
 Next == FALSE /\ g' = g
 Spec == Init /\ [][Next]_g
